@@ -27,6 +27,11 @@ CLAIMED["C18"] = dict(engine="rgsim", design="4.8",
    text="The real binary is spawned per run with a seeded RNG stream replacing thread_rng (guarded hook), over seeded requests (V, E, -u, --complete, --dot, -o; half feasible-interior, a quarter at the maximum, a quarter infeasible or incomplete) and --convert/--colors inputs. Oracles: exactly E distinct loop-free edges over v0..v(V-1), no pair in both orientations under -u, refusal with message and no output for infeasible requests, byte-identical replay, --dot equals the plain edge list, --convert equals the merged input list, clique-cover iff k-colourable by brute force. Exploration level over requests x RNG streams.",
    note="Trusted: the edge-list parsers and brute-force colouring of /verif/sim. --colors is judged on loop-free inputs with <= 5 vertices and k <= 3. Variety of the generator's output is measured (distinct edge sets) but not judged.")
 
+CLAIMED["C14"] = dict(engine="dotsim", design="4.7",
+   technique="deterministic simulation with fault injection on the Write seam and on allocation addresses: diagrams from seeded environment histories exported through short-write/EINTR/error write plans, read back with an independent DOT reader, compared across histories",
+   text="Per run a seeded function is built inside an environment with seeded prior history and allocator churn (node ids are allocation addresses), exported with filters Any/True/False and through a fault-injecting writer, read back by an independent DOT reader and evaluated under all assignments; the same function built through another route in another environment must give an isomorphic graph; filtered exports must equal the unfiltered one minus the opposite leaf and its edges; generated formulas' syntax trees are exported and read back as terms with shared sub-terms. Exploration level; the writer-fault and address dimensions are the simulated part, diagrams/trees are sampled.",
+   note="Trusted: /verif/sim's DOT reader (one statement per line, escape_default labels) and truth-table walker. Only diagrams interned in one environment are exported (the exporter identifies nodes by allocation on purpose). <= 6 variables.")
+
 NOT_APPLICABLE = {
 }
 
